@@ -93,10 +93,13 @@ inductive Which where | c03 | c04 | c11 | c14
 when one is held and SM is advertised (if that step was reached); after a reply other than "resumed, same id"
 the observed session no longer holds the id. -/
 def holdsC11 (s0 : Sess) (sc : Script) (ws : List Write) : Bool :=
-  ws.all fun w => match w.kind with
+  (ws.all fun w => match w.kind with
     | .resume p h => p == heldId s0 && heldId s0 != "" && h == (if s0.present then s0.inbound else 0) &&
         (match sc.feat3 with | some f3 => f3.sm | none => false)
-    | _ => true
+    | _ => true) &&
+  -- "binds a fresh session (always, after a refusal)": a <resume/> answered by <failed/> is followed by the bind
+  (sc.resumeReply != .failed || !(ws.any fun w => match w.kind with | .resume _ _ => true | _ => false) ||
+    ((ws.dropWhile fun w => match w.kind with | .resume _ _ => false | _ => true).drop 1).any (fun w => w.kind == .bind))
 
 def stepWith (which : Which) (d : DSt) (fields : List String) (impl : String) : DSt × Reply :=
   match fields with
